@@ -568,7 +568,10 @@ where
 {
     let hash = content_hash(object)?;
 
-    let hashes_value = object
+    // Work on a copy, so the event is left unchanged if an error is returned.
+    let mut hashed = object.clone();
+
+    let hashes_value = hashed
         .entry("hashes".to_owned())
         .or_insert_with(|| CanonicalJsonValue::Object(BTreeMap::new()));
 
@@ -579,11 +582,13 @@ where
         _ => return Err(JsonError::not_of_type("hashes", JsonType::Object)),
     };
 
-    let mut redacted = redact(object.clone(), redaction_rules, None)?;
+    let mut redacted = redact(hashed.clone(), redaction_rules, None)?;
 
     sign_json(entity_id, key_pair, &mut redacted)?;
 
-    object.insert("signatures".into(), mem::take(redacted.get_mut("signatures").unwrap()));
+    hashed.insert("signatures".into(), mem::take(redacted.get_mut("signatures").unwrap()));
+
+    *object = hashed;
 
     Ok(())
 }
